@@ -386,6 +386,11 @@ func (c *Ctx) callFunction(fn *ssa.Function, args []Value, bind []Value, st *Sta
 			return []Outcome{{st, Var(c.freshName("fresh"), BoolSort)}}
 		case "FreshIntG":
 			return []Outcome{{st, Var(c.freshName("freshg"), IntSort)}}
+		case "HasCase":
+			_, ok := c.cases[args[0].(string)]
+			return []Outcome{{st, BoolC(ok)}}
+		case "BVShlSym":
+			return []Outcome{{st, BvShl(termOf(args[0]), termOf(args[1]))}}
 		case "Case":
 			v, ok := c.cases[args[0].(string)]
 			if !ok {
